@@ -1,7 +1,7 @@
 """Properties not (yet) claimed, with the reason. Entries for properties that
 gain a check in checks.py are ignored by mkmanifest.py."""
 
-PENDING = "no solver-based check registered yet for this property in this revision of /verif"
+PENDING = "its encodable kernels are string/type functions the engine could execute, but no harness was built in this revision of /verif; no claim is made"
 
 NOT_APPLICABLE = {
     "C01": PENDING, "C02": PENDING, "C03": PENDING, "C04": PENDING, "C05": PENDING, "C06": PENDING,
@@ -11,5 +11,5 @@ NOT_APPLICABLE = {
     "C10": "concerns stderr and exit status of a process running the patched Go runtime; garble's part is a syntactic rewrite of runtime sources whose meaning only exists after compiling and running them",
     "C11": PENDING, "C12": PENDING, "C13": PENDING, "C14": PENDING, "C15": PENDING,
     "C17": "interleavings are between OS processes synchronised by the kernel's flock, cmd/go's cache and MkdirTemp; encoding them means modelling those, not executing garble's code",
-    "C18": PENDING, "C19": PENDING, "C20": PENDING,
+    "C18": "only the linker stamp protocol would be encodable, and only against a file-system model with partial writes that would be the whole claim; everything else in the statement is OS processes and caches outside garble's code", "C19": PENDING, "C20": PENDING,
 }
